@@ -11,7 +11,7 @@ from common import (V, INT32_EDGES, EXC_ALL, ebb_spec, PORT_NAMES, distinct_ram,
 
 PROP = 'C16'
 LEVEL = 'exploration'
-N_QUICK = 12000
+N_QUICK = 48000
 N_THOROUGH = 1500000
 WALL_QUICK = 100
 WALL_THOROUGH = 1500
@@ -93,6 +93,14 @@ def check(scn, hist):
         if rec['exc'] is not None:
             if not faulty:
                 out.append(V(PROP, 'raised', m, oid, '%s: %s' % (rec['exc'], rec['exc_msg'])))
+            continue
+        if (not faulty and b['err'] is None and a['err'] is not None and
+                m in ('var_write', 'var_read', 'var_write_int32', 'var_read_int32', 'write_nickname',
+                      'query_nickname', 'motors_disable', 'motors_query_enabled')):
+            # the board implements the documented commands and answered promptly: a round trip that ends in
+            # a recorded error has not been faithful
+            out.append(V(PROP, 'roundtrip_failed', m, oid, 'fault-free %s%r against a conforming board recorded %r'
+                         % (m, tuple(args), a['err'])))
             continue
         if m == 'var_write_int32':
             v, idx = args[0], args[1]
@@ -264,7 +272,7 @@ def observe(scn, hist, st):
 
 NICKS = ['Bob', ' Bob ', 'axi 7', '\tNextDraw_01\r\n', 'x', 'abcdefghijklmnop', '  A', 'Zed9  ', '', '   ',
          'BOB', 'bob', '  abcdefghijklmnop', 'abcdefghijklmnop  ', '   ABCDEFGHIJKLMNO ', 'Studio  East', 'Old', 'OLD',
-         'prior name', 'Tango 2', 'Quill', 'T', 'Q,1', 'QT', 'Emma', 'a \t b']
+         'prior name', 'Tango 2', 'Quill', 'T', 'Q,1', 'QT', 'Emma', 'a \t b', 'Errol', 'Egg Errand', 'Err', 'OK', '!x']
 
 
 def world_for(rng, prior_motor=None, ram=None):
